@@ -95,9 +95,10 @@ Section Hashes.
     | _, _ => None
     end.
 
-  (* the common prologue: one time() sample, two strftime calls *)
-  Definition timestamps (ncalls : N) (fmts : list (bytes * N * bytes)) (t : Z) : option env :=
-    if ncalls =? 1 then
+  (* the common prologue: one time() sample, two strftime calls, both fed by gmtime_r (UTC) *)
+  Definition timestamps (ncalls : N) (tfns : list bytes) (fmts : list (bytes * N * bytes)) (t : Z) : option env :=
+    if (ncalls =? 1) && forallb (fun f => beq_bytes f (b "gmtime_r")) tfns
+       && (N.of_nat (List.length tfns) =? 2) then
       match fmts with
       | [(d1, m1, f1); (d2, m2, f2)] =>
         match strftime m1 f1 (gmtime t), strftime m2 f2 (gmtime t) with
@@ -125,9 +126,9 @@ Section Hashes.
 
   (* shape shared by the three *_headers functions: returns (x_amz_content_sha256, x_amz_date, authorization) *)
   Definition headers_variant (fmts : list (bytes * bytes * list farg)) (sargs : list farg)
-             (ncalls : N) (tfmts : list (bytes * N * bytes))
+             (ncalls : N) (tfns : list bytes) (tfmts : list (bytes * N * bytes))
              (inputs : env) (body : option bytes) (t : Z) : option (bytes * bytes * bytes) :=
-    match timestamps ncalls tfmts t, fmts with
+    match timestamps ncalls tfns tfmts t, fmts with
     | Some te, [f_creq; f_auth] =>
       match hexify_str (sha256 (match body with Some x => x | None => [] end)) with
       | Some ch =>
@@ -156,28 +157,28 @@ Section Hashes.
   Definition aws_sign_s3_headers_m (key_id key_secret region method bucket path : bytes)
              (body : option bytes) (t : Z) : option (bytes * bytes * bytes) :=
     headers_variant fmts_aws_sign_s3_headers signargs_aws_sign_s3_headers
-                    time_calls_aws_sign_s3_headers strftime_aws_sign_s3_headers
+                    time_calls_aws_sign_s3_headers timefns_aws_sign_s3_headers strftime_aws_sign_s3_headers
                     [(b "key_id", key_id); (b "key_secret", key_secret); (b "region", region);
                      (b "method", method); (b "bucket", bucket); (b "path", path)] body t.
 
   Definition aws_sign_svc_headers_m (key_id key_secret region svc : bytes)
              (body : option bytes) (t : Z) : option (bytes * bytes * bytes) :=
     headers_variant fmts_aws_sign_svc_headers signargs_aws_sign_svc_headers
-                    time_calls_aws_sign_svc_headers strftime_aws_sign_svc_headers
+                    time_calls_aws_sign_svc_headers timefns_aws_sign_svc_headers strftime_aws_sign_svc_headers
                     [(b "key_id", key_id); (b "key_secret", key_secret); (b "region", region);
                      (b "svc", svc)] body t.
 
   Definition aws_sign_dynamodb_headers_m (key_id key_secret region op : bytes)
              (body : option bytes) (t : Z) : option (bytes * bytes * bytes) :=
     headers_variant fmts_aws_sign_dynamodb_headers signargs_aws_sign_dynamodb_headers
-                    time_calls_aws_sign_dynamodb_headers strftime_aws_sign_dynamodb_headers
+                    time_calls_aws_sign_dynamodb_headers timefns_aws_sign_dynamodb_headers strftime_aws_sign_dynamodb_headers
                     [(b "key_id", key_id); (b "key_secret", key_secret); (b "region", region);
                      (b "op", op)] body t.
 
   (* char * aws_sign_s3_querystr(key_id, key_secret, region, method, bucket, path, expiry) *)
   Definition aws_sign_s3_querystr_m (key_id key_secret region method bucket path : bytes)
              (expiry : Z) (t : Z) : option bytes :=
-    match timestamps time_calls_aws_sign_s3_querystr strftime_aws_sign_s3_querystr t,
+    match timestamps time_calls_aws_sign_s3_querystr timefns_aws_sign_s3_querystr strftime_aws_sign_s3_querystr t,
           fmts_aws_sign_s3_querystr with
     | Some te, [f_creq; f_query] =>
       let e0 := te ++ [(b "key_id", key_id); (b "key_secret", key_secret); (b "region", region);
